@@ -653,7 +653,19 @@ impl World {
             GATED.with(|g| g.set(true));
             vfs_a.umount(&up).map_err(|e| show_vfs_err(&e))
         });
-        let _parked = erx.recv_timeout(Duration::from_millis(300)).is_ok();
+        // wait until the umount is parked in destroy() — or is over without having got there
+        let t_park = std::time::Instant::now();
+        let mut _parked = false;
+        while t_park.elapsed() < Duration::from_millis(300) {
+            if erx.try_recv().is_ok() {
+                _parked = true;
+                break;
+            }
+            if ta.is_finished() {
+                break;
+            }
+            std::thread::sleep(Duration::from_micros(200));
+        }
         let vfs_b = self.vfs.clone();
         let mp = mf[1].to_string();
         let tb = std::thread::spawn(move || {
@@ -664,8 +676,8 @@ impl World {
             .map_err(|e| show_vfs_err(&e))
         });
         let t0 = std::time::Instant::now();
-        while !tb.is_finished() && t0.elapsed() < Duration::from_millis(120) {
-            std::thread::sleep(Duration::from_millis(1));
+        while !tb.is_finished() && t0.elapsed() < Duration::from_millis(25) {
+            std::thread::sleep(Duration::from_micros(200));
         }
         let _ = gtx.send(());
         let ru = ta.join();
@@ -842,7 +854,19 @@ impl World {
             GATED.with(|g| g.set(true));
             vfs_a.umount(&up).map_err(|e| show_vfs_err(&e))
         });
-        let _parked = erx.recv_timeout(Duration::from_millis(300)).is_ok();
+        // wait until the umount is parked in destroy() — or is over without having got there
+        let t_park = std::time::Instant::now();
+        let mut _parked = false;
+        while t_park.elapsed() < Duration::from_millis(300) {
+            if erx.try_recv().is_ok() {
+                _parked = true;
+                break;
+            }
+            if ta.is_finished() {
+                break;
+            }
+            std::thread::sleep(Duration::from_micros(200));
+        }
         let uid: u32 = rf[2].parse().unwrap_or(0);
         let gid: u32 = rf[3].parse().unwrap_or(0);
         let ino: u64 = rf[4].parse().unwrap_or(0);
@@ -856,8 +880,8 @@ impl World {
                     Err(e) => show_io(&e),
                 });
                 let t0 = std::time::Instant::now();
-                while !tb.is_finished() && t0.elapsed() < Duration::from_millis(120) {
-                    std::thread::sleep(Duration::from_millis(1));
+                while !tb.is_finished() && t0.elapsed() < Duration::from_millis(25) {
+                    std::thread::sleep(Duration::from_micros(200));
                 }
                 let _ = gtx.send(());
                 tb.join()
